@@ -357,8 +357,12 @@ EVM2_MC = dict(module="MC_Evm.tla", cfg="MC_Evm2.cfg", timeout=1500, quick={"Max
 EVM2_SIM = dict(module="MC_Evm.tla", cfg="MC_EvmSim2.cfg", family="evm", num=(12, 200), depth=300, timeout=3000,
                 quick={"MaxLen": "90"}, thorough={"MaxLen": "120"}, script_cfg="cfg_evm2.json", script_extra={"evm": "ethereum"})
 
+# the same loop on BSC (its own timeout arithmetic, gas price key and token list)
+EVMBSC_SIM = dict(module="MC_Evm.tla", cfg="MC_EvmSimBsc.cfg", family="evm", num=(12, 200), depth=300, timeout=3000,
+                  quick={"MaxLen": "90"}, thorough={"MaxLen": "120"}, script_cfg="cfg_evm_bsc.json", script_extra={"evm": "bsc"})
+
 PROPS = {
-    "C08": dict(mc=[EVM_MC, EVM2_MC, MINTER_MC], sim=[EVM_SIM, EVM2_SIM, MINTER_SIM], static=["evm*.ndjson", "minter*.ndjson"],
+    "C08": dict(mc=[EVM_MC, EVM2_MC, MINTER_MC], sim=[EVM_SIM, EVM2_SIM, EVMBSC_SIM, MINTER_SIM], static=["evm*.ndjson", "minter*.ndjson"],
                 watch=["C08:", "C07:CheckpointAgrees", "C13:WithdrawnBatchExecuted", "conf:ss", "conf:sigs", "conf:loss", "conf:lon", "conf:relay"],
                 need={"EvmUpdateValset/ok": 3, "EvmUpdateValset/revert": 3, "EvmSubmitBatch/ok": 2, "EvmSubmitBatch/revert": 2, "EvmDeposit/ok": 5, "Claim/ok": 20,
                       "ConnValsets/ok": 10, "ConnBatches/ok": 3, "ConnScan/ok": 10}),
